@@ -267,7 +267,9 @@ def iter_filter_map(eng, c, a, g):
         r = eng.call_closure(clo, [v], AND(g, av))
         items.append((AND(av, opt_is_some(r)), opt_payload(r)))
     return IterModel(items, it.consumed)
-def iter_chain(eng, c, a, g): return IterModel(a[0].items + a[1].items, a[0].consumed + a[1].consumed)
+def iter_chain(eng, c, a, g):
+    a1 = a[1] if isinstance(a[1], IterModel) else as_iter(eng, a[1])
+    return IterModel(a[0].items + a1.items, a[0].consumed + a1.consumed)
 def iter_all(eng, c, a, g):
     it = eng.load(a[0]); clo = a[1]
     r = TRUE
@@ -1227,3 +1229,34 @@ _CMP = [
     (R(r'<&*(Version|usize|u64) as Ord>::(max|min)'), ord_max_min),
 ]
 MODELS_NORM = [(re.compile(norm_path(p.pattern)), f) for p, f in _CMP] + MODELS_NORM
+
+# ------------------------------------------------------------------ iterator sources: once / empty / arrays / Option as an iterator; flatten
+def as_iter(eng, v):
+    """view a value as an IterModel where Rust's IntoIterator would"""
+    if isinstance(v, IterModel): return v
+    if isinstance(v, EnumV) and set(v.vars) <= {0, 1}:      # Option<T>
+        p = opt_payload(v); return IterModel([(opt_is_some(v), p)] if p is not None else [])
+    if isinstance(v, VecModel): return vec_into_iter(eng, '', [v], TRUE)
+    if isinstance(v, Agg): return IterModel([(TRUE, x) for x in v.f])      # array by value
+    if isinstance(v, Ptr): return slice_iter(eng, '', [v], TRUE)
+    raise Unsupported(f'not iterable: {v!r}')
+def iter_once(eng, c, a, g): return IterModel([(TRUE, a[0])])
+def iter_empty(eng, c, a, g): return IterModel([])
+def into_iter_generic(eng, c, a, g): return as_iter(eng, a[0])
+def iter_flatten(eng, c, a, g):
+    items = []
+    for (av, v), cn in zip(a[0].items, a[0].consumed):
+        if v is None: continue
+        inner = as_iter(eng, v)
+        items += [(AND(av, NOT(cn), x), y) for x, y in inner.items]
+    return IterModel(items)
+def vec_extend_any(eng, c, a, g):
+    return vec_extend(eng, c, [a[0], as_iter(eng, a[1])], g)
+_SRC = [
+    (R(r'once::<.*>'), iter_once), (R(r'empty::<.*>'), iter_empty),
+    (R(r'<\[.*; \d+\] as IntoIterator>::into_iter'), into_iter_generic), (R(r'<Option<.*> as IntoIterator>::into_iter'), into_iter_generic),
+    (R(r'Option::<.*>::(into_iter|iter)'), into_iter_generic),
+    (R(r'<.* as Iterator>::flatten'), iter_flatten),
+    (R(r'<Vec<.*> as Extend<.*>>::extend::<.*'), vec_extend_any),
+]
+MODELS_NORM = [(re.compile(norm_path(p.pattern)), f) for p, f in _SRC] + MODELS_NORM
